@@ -15,6 +15,7 @@ ENTRY = dict(
             "delivered => well-formed, all streams": "theorem",
             "non-delivery outcomes are ignored / protocol error / connection lost": "theorem (by construction of the model) + correspondence (implementation has no other behaviour)",
             "every fragmentation into chunks": "correspondence (3 chunkings per stream; StreamReader trusted)",
+            "multi-byte corruptions (same delta on 2-4 positions of the whole frame, the end delimiter included); neighbourhood search (every single-byte substitution / paired XOR delta) around streams on which model and implementation differ": "correspondence + C01.spec judge",
         },
         assumptions=COMMON_ASSUME,
     )
